@@ -20,6 +20,11 @@ REPO = "/repo"
 
 # (property, relative file, old text, new text, substring of the unit expected to fail)
 MUTANTS = [
+    ("C22", "unified_planning/model/multi_agent/ma_problem.py", "        new_p._agents = [ag.clone(new_p) for ag in self._agents]\n", "        new_p._agents = [ag.clone(self) for ag in self._agents]\n", "MultiAgentProblem.clone"),
+    ("C22", "unified_planning/model/multi_agent/ma_problem.py", "        new_p._objects = self._objects[:]\n        new_p._initial_value", "        new_p._objects = self._objects\n        new_p._initial_value", "MultiAgentProblem.clone"),
+    ("C22", "unified_planning/model/multi_agent/ma_problem.py", "        new_p._goals = self._goals[:]\n        new_p._initial_defaults = self._initial_defaults.copy()\n        return new_p", "        new_p._initial_defaults = self._initial_defaults.copy()\n        return new_p", "MultiAgentProblem.clone"),
+    ("C22", "unified_planning/model/multi_agent/ma_problem.py", "        new_p.ma_environment._fluents_defaults = (\n            self.ma_environment._fluents_defaults.copy()\n        )", "        new_p.ma_environment._fluents_defaults = (\n            self.ma_environment._fluents_defaults\n        )", "MultiAgentProblem.clone"),
+    ("C22", "unified_planning/model/multi_agent/ma_problem.py", "        new_p._agents = [ag.clone(new_p) for ag in self._agents]\n", "        new_p._agents = [ag.clone(new_p) for ag in self._agents[1:]]\n", "MultiAgentProblem.clone"),
     ("C02", "unified_planning/engines/sequential_simulator.py", "            except UPConflictingEffectsException:\n                reason = InapplicabilityReasons.CONFLICTING_EFFECTS\n",
      "            except UPConflictingEffectsException:\n                pass\n", "full_check"),
     ("C02", "unified_planning/engines/sequential_simulator.py", "                if not self._se.evaluate(si, new_partial_state).bool_constant_value():", "                if not self._se.evaluate(si, state).bool_constant_value():", "full_check"),
